@@ -549,41 +549,219 @@ def gen_curve(rng, op, c, r, n, tiny=False, fixed=None, raw=None, fixed_raw=None
 
 
 # ---------------------------------------------------------------- polynomials
-PL_EQUAL = [(2, 3), (4, 5), (6, 7), (0, 8), (0, 9), (10, 11), (0, 12), (13, 14), (0, 0)]
-PL_DIFF = [(0, 1), (2, 6), (0, 13), (4, 2), (0, 11)]
+# Expression codes: coq/C19/PolyExprs.v (dense-valued < 100, sparse-valued >= 100).  Operands P Q R (dense), f,
+# SA SB (sparse, raw term lists through SparsePolynomial::from_coefficients_vec), domain [n, h, g].
+# Pairs that denote the SAME polynomial for all operands:
+PD_EQ = [(2, 3), (4, 5), (6, 7), (0, 8), (0, 9), (10, 11), (0, 12), (13, 14), (0, 0),             # (first 9: the old set)
+         (6, 16), (6, 17), (16, 17), (2, 18), (19, 20), (4, 21), (5, 21), (22, 15), (23, 15), (22, 23), (24, 11),
+         (10, 24), (26, 11), (29, 0), (31, 0), (35, 0), (41, 42), (44, 0), (45, 0), (9, 45), (46, 0), (33, 34),
+         (32, 36), (37, 39), (38, 40), (25, 0), (30, 0), (43, 0)]
+PS_EQ = [(105, 106), (105, 107), (108, 109), (108, 110), (109, 110), (111, 112), (114, 115), (116, 117), (117, 132),
+         (118, 119), (120, 121), (122, 123), (124, 123), (122, 124), (125, 101), (126, 100), (127, 100), (128, 129),
+         (130, 131), (133, 100), (134, 100), (135, 123), (136, 104), (100, 100)]
+# the same polynomial when SA denotes P and SB denotes Q (the generator builds them so)
+PD_EQ_CORR = [(32, 0), (36, 0), (37, 13), (38, 11), (39, 13), (40, 11), (34, 2), (33, 2)]
+PS_EQ_CORR = [(100, 102), (101, 103), (108, 116), (108, 117), (105, 118), (105, 119), (114, 120), (114, 121),
+              (111, 130), (111, 131), (122, 135), (107, 118), (109, 116)]
+# generally different polynomials
+PD_DIFF = [(0, 1), (2, 6), (0, 13), (4, 2), (0, 11), (6, 3), (17, 18), (19, 18), (22, 0), (25, 1), (37, 38), (16, 2),
+           (41, 0), (27, 28), (21, 2)]
+PS_DIFF = [(100, 101), (105, 108), (108, 106), (113, 100), (111, 105), (114, 105), (102, 103), (116, 118), (128, 100),
+           (108, 110 + 3)]
+# zero / equal only because of how the operands are correlated
+PD_WHEN_Q_EQ_P = [(6, 11), (17, 11), (16, 11), (24, 17), (0, 1), (7, 11), (9, 1), (27, 27), (28, 11)]
+PS_WHEN_Q_EQ_P = [(108, 123), (109, 123), (117, 123), (116, 123), (100, 101), (110, 123), (132, 123), (125, 100)]
+PD_WHEN_Q_EQ_NEGP = [(2, 11), (18, 11), (3, 11), (41, 1), (42, 1), (9, 0), (45, 0)]
+PS_WHEN_Q_EQ_NEGP = [(105, 123), (107, 123), (119, 123), (118, 123), (113, 101), (106, 123)]
+P_FFT = {4, 5, 12, 25, 26}          # DensePolynomial `*` builds a domain of size >= len p + len q - 1
+SPARSE_ONLY = {100, 101, 105, 106, 107, 108, 109, 110, 111, 112, 113, 114, 115, 122, 123, 124, 125, 126, 127, 128,
+               129, 133, 134, 32, 33, 34, 36}      # codes that read only SA, SB, f
+
+# Branches of the sparse / dense operators and the class that reaches them:
+#   sparse Add merge: Less / Greater / Equal with non-zero sum / Equal with ZERO sum (term dropped) ... 'shared' (equal
+#        and opposite coefficients on interior and leading monomials), 'equal', 'opposite', 'hi' (truly sparse, degrees
+#        to 200); append_coeffs tail of either side: different lengths; is_zero shortcuts: 'zero_p', 'zero_q', 'zero_pq'
+#   sparse `-=` / `+= (f, q)` / Neg / `* f` (f = 0, 1, -1): every scenario, f classes
+#   sparse mul: BTreeMap accumulation with cancelling products (x+1)(x-1)-type: 'opposite', 'shared', F_13 stream
+#   SparsePolynomial::from_coefficients_vec: pops trailing zero-coefficient terms, sorts: 'unsorted', 'zterm' flags
+#   dense add/sub/+=/-=/+=(f,q): degree comparison branches, truncate_leading_zeros: 'lead_cancel' (k leading
+#        coefficients cancel), 'low_r' ((p + r) - p with deg r < deg p), 'equal', 'opposite', trailing zeros in inputs
+#   divide_with_q_and_r: zero dividend / deg < deg / loop: 'pair' with (25..29, 43), dense and sparse divisor
+#   evaluate_over_domain (len <= n and folding len > n), interpolate: code 30, observable 7 of every case
 
 
-def gen_poly(rng, n):
-    f = FIELDS['bls12_381_fr']
-    p = f['params'][0]
+def _canon(v, p):
+    v = [x % p for x in v]
+    while v and v[-1] == 0:
+        v.pop()
+    return v
+
+
+def gen_poly(rng, n, fname='bls12_381_fr'):
+    f = FIELDS[fname]
+    p, N = f['params'][0], f['N']
     H = [head(f), f['params']]
+    toy = p < 100
+    gen2, twoad = (2, 2) if toy else (7, 32)           # multiplicative generator, 2-adicity (checked by the harness:
+    maxlen = 5 if toy else 9                           # the domain's group_gen must equal g)
+
+    def coef():
+        return fp_operand(rng, p, N)[0] % p
+
+    def nzcoef():
+        while True:
+            c = coef()
+            if c:
+                return c
 
     def poly(maxlen):
         ln = rng.choice([0, 1, 2, 3, rng.randrange(maxlen + 1)])
-        v = [fp_operand(rng, p, 4)[0] if rng.randrange(4) else 0 for _ in range(ln)]
-        if rng.randrange(3) == 0:
-            v += [0] * rng.randrange(1, 4)           # non-canonical input: trailing zeros
+        v = [coef() if rng.randrange(4) else 0 for _ in range(ln)]
+        if v and rng.randrange(3):
+            v[-1] = nzcoef()
         return v
+
+    def pad(v):
+        if rng.randrange(3) == 0:
+            return v + [0] * rng.randrange(1, 4)     # non-canonical input: trailing zeros
+        return v
+
+    def raw_terms(terms):
+        """raw argument of SparsePolynomial::from_coefficients_vec for the polynomial {deg: coeff}: the non-zero
+        terms in any order, then (sometimes) zero-coefficient terms of other degrees at the END of the list, where
+        the constructor pops them.
+        # DEFECT-1: a zero-coefficient term anywhere else is kept by the constructor (non-canonical value), and
+        # duplicate degrees have no single meaning (evaluate sums them, the dense conversion keeps the last):
+        # neither is generated."""
+        t = [(d, c) for d, c in terms if c % p]
+        flags = ''
+        if len(t) > 1 and rng.randrange(2):
+            rng.shuffle(t); flags += '/unsorted'
+        if rng.randrange(4) == 0:
+            used = {d for d, _ in t}
+            for _ in range(rng.randrange(1, 3)):
+                d = rng.choice([0, 1, 2, 7, 40, 300])
+                if d not in used:
+                    used.add(d); t.append((d, 0)); flags += '/zterm'
+        return [x for d, c in t for x in (d, c)], flags
+
+    def of_dense(v):
+        return [(i, c) for i, c in enumerate(v)]
+
     for _ in range(n):
-        a, b = poly(9), poly(9)
-        r = rng.randrange(8)
-        if r < 3:
-            e = rng.choice(PL_EQUAL); cls = 'same_poly'
-        elif r == 3:
-            e = rng.choice(PL_DIFF); cls = 'diff_expr'
-        elif r == 4 and a:
-            b = list(a); i = rng.randrange(len(a)); b[i] = (b[i] + 1) % p; e = (0, 1); cls = 'nb_coeff'
-        elif r == 5 and a:
-            # leading terms cancel in p + q / p - q
-            b = list(a); b[-1] = (p - b[-1]) % p if rng.randrange(2) else b[-1]
-            if len(b) > 1:
-                b[0] = (b[0] + 1) % p
-            e = rng.choice([(2, 3), (6, 7), (9, 0), (0, 9)]); cls = 'lead_cancel'
-        elif r == 6:
-            b = a + [0, 0]; e = (0, 1); cls = 'trailing_zeros'
+        sc = rng.randrange(16)
+        corr = True                                   # SA denotes P, SB denotes Q
+        extraD, extraS = [], []
+        a, b, r = poly(maxlen), poly(maxlen), poly(maxlen)
+        if sc == 0 and a:
+            b = list(a); cls = 'equal'; extraD, extraS = PD_WHEN_Q_EQ_P, PS_WHEN_Q_EQ_P
+        elif sc == 1 and a:
+            b = [(-x) % p for x in a]; cls = 'opposite'; extraD, extraS = PD_WHEN_Q_EQ_NEGP, PS_WHEN_Q_EQ_NEGP
+        elif sc in (2, 3) and a:
+            # shared monomials with equal / opposite coefficients, interior and leading
+            b = [rng.choice([x, (-x) % p, x, (-x) % p, coef(), 0]) for x in a]
+            b = b[:rng.randrange(1, len(b) + 1)] if rng.randrange(3) == 0 else b
+            cls = 'shared'
+        elif sc in (4, 5) and a:
+            # the k leading coefficients cancel in p - q (equal) or p + q (opposite)
+            a = _canon(a, p) or [nzcoef()]
+            k = rng.randrange(1, len(a) + 1)
+            sg = rng.choice([1, -1])
+            b = [coef() for _ in range(len(a) - k)] + [(sg * x) % p for x in a[len(a) - k:]]
+            cls = 'lead_cancel%s' % ('_all' if k == len(a) else '')
+        elif sc == 6:
+            # (p + r) - p = r with deg r < deg p: the leading terms of the sum cancel again
+            a = _canon(a, p) or [nzcoef(), nzcoef()]
+            r = poly(max(0, len(a) - 1))[:max(0, len(a) - 1)]
+            cls = 'low_r'
+        elif sc == 7:
+            z = rng.randrange(3)
+            if z == 0:
+                a = []; cls = 'zero_p'
+            elif z == 1:
+                b = []; cls = 'zero_q'
+            else:
+                a, b = [], []; cls = 'zero_pq'
+            if rng.randrange(2):
+                r = []
+        elif sc == 8:
+            # single terms on the same / different monomial
+            k = rng.randrange(0, maxlen)
+            a = [0] * k + [nzcoef()]
+            b = rng.choice([list(a), [(-x) % p for x in a], [0] * k + [nzcoef()], [0] * rng.randrange(0, maxlen) + [nzcoef()]])
+            r = [0] * rng.randrange(0, k + 1) + [nzcoef()]
+            cls = 'single_term'
+        elif sc == 9 and a:
+            b = list(a); i = rng.randrange(len(a)); b[i] = (b[i] + 1) % p; cls = 'nb_coeff'
+            extraD, extraS = [(0, 1)] * 3, [(100, 101), (102, 103), (100, 103)]
+        elif sc == 10:
+            b = a + [0, 0]; cls = 'trailing_zeros'; extraD, extraS = PD_WHEN_Q_EQ_P, PS_WHEN_Q_EQ_P
         else:
-            e = (0, 1); cls = 'pair'
-        yield 'poly_rel', H + [a, b, list(e)], 'poly/%s/len%s' % (cls, 'lt' if len(a) < len(b) else ('eq' if len(a) == len(b) else 'gt'))
+            cls = 'pair'
+        ta, tb = of_dense(a), of_dense(b)
+        if sc >= 13:
+            # truly sparse SA, SB (independent of P, Q): few terms, degrees to 200, shared degrees with equal /
+            # opposite coefficients incl. the leading one
+            corr = False
+            pool = [0, 1, 2, 3, 5, 8, 13, 31, 32, 33, 63, 64, 65, 100, 127, 128, 200] if not toy else [0, 1, 2, 3, 5, 8, 13, 31]
+            ta = [(d, nzcoef()) for d in sorted(rng.sample(pool, rng.randrange(0, 6)))]
+            k = rng.randrange(6)
+            if k == 0:
+                tb = list(ta); cls = 'hi_equal'; extraS = PS_WHEN_Q_EQ_P
+            elif k == 1:
+                tb = [(d, (-c) % p) for d, c in ta]; cls = 'hi_opposite'; extraS = PS_WHEN_Q_EQ_NEGP
+            elif k == 2 and ta:
+                tb = list(ta); i = rng.randrange(len(ta)); d, c = tb[i]
+                tb[i] = rng.choice([(d, (c + 1) % p), (d + 300, c)])
+                if rng.randrange(3) == 0:
+                    del tb[i]
+                cls = 'hi_neighbour'; extraS = [(100, 101)] * 3
+            else:
+                tb = [(d, rng.choice([c, (-c) % p, nzcoef()])) for d, c in ta if rng.randrange(3)]
+                tb += [(d, nzcoef()) for d in rng.sample(pool, rng.randrange(0, 3)) if d not in dict(ta)]
+                cls = 'hi_shared'
+        sa, fa = raw_terms(ta)
+        sb, fb = raw_terms(tb)
+        fs = rng.choice([0, 1, p - 1, 2 % p, coef(), coef()])
+        # the expression pair
+        sparse_side = rng.randrange(2) == 0 or not corr
+        t = rng.randrange(10)
+        if extraD and t < 4:
+            pool_e = extraS if sparse_side else extraD; kind = 'corr'
+        elif t < 7:
+            pool_e = PS_EQ if sparse_side else PD_EQ; kind = 'same'
+        elif t < 8 and corr:
+            pool_e = PS_EQ_CORR if sparse_side else PD_EQ_CORR; kind = 'same'
+        else:
+            pool_e = PS_DIFF if sparse_side else PD_DIFF; kind = 'diff'
+        ca, cb = _canon(a, p), _canon(b, p)
+        need = len(ca) + len(cb)
+        while True:
+            e = rng.choice(pool_e)
+            if not corr and not (set(e) <= SPARSE_ONLY):
+                pool_e = [x for x in PS_EQ + PS_DIFF + [(33, 34), (32, 36)] if set(x) <= SPARSE_ONLY]
+                kind = 'mixed'
+                continue
+            if set(e) & P_FFT and ca and cb and max(need - 1, len(ca) if 12 in e else 0) > (1 << twoad):
+                continue                              # toy field not smooth enough for this product
+            if e == (25, 0) and not cb:
+                e = (26, 11)                          # (p*q)/q is only p for q != 0
+            break
+        # domain: large enough for the round trip (code 30) most of the time; smaller domains fold mod X^n - h^n
+        k = max(1, need).bit_length()
+        if not (30 in e) and rng.randrange(4) == 0:
+            k = rng.randrange(0, k + 1)
+        k = min(k + rng.randrange(2), twoad, 5)
+        if 30 in e and (1 << k) < len(ca):
+            e = (31, 0)
+        nn = 1 << k
+        g = pow(gen2, (p - 1) // nn, p)
+        hh = rng.choice([1, 1, 1, p - 1, gen2, rng.randrange(1, p)])
+        yield 'poly_rel', H + [pad(a), pad(b), list(e), pad(r), [fs], sa, sb, [nn, hh, g]], \
+            'poly%s/%s/%s/%s%s' % ('13' if toy else '', cls, 'sparse' if e[0] >= 100 else 'dense', kind,
+                                   ''.join(sorted(set((fa + fb).split('/')) - {''})) and
+                                   '/raw:' + '+'.join(sorted(set((fa + fb).split('/')) - {''}))
+                                   if e[0] >= 100 or not set(e).isdisjoint(range(32, 44)) else '')
 
 
 def gen_gt(rng, n):
@@ -696,7 +874,8 @@ def gen(rng, tier):
     yield 'gt_params', [head(FIELDS['bls12_381_fq12']), FIELDS['bls12_381_fq12']['params'], PARAMS['gt']['bls12_381']['g']], 'params'
     yield from gen_gt(rng, 150 * scale)
     yield from gen_gt_pair(rng, 48 * (1 if tier == 'quick' else 8))
-    yield from gen_poly(rng, 500 * scale)
+    yield from gen_poly(rng, 1800 * scale)
+    yield from gen_poly(rng, 1200 * scale, 'f13')
 
 
 def nontrivial(case, out):
